@@ -29,7 +29,7 @@ from zcsim.world import SimWorld
 ID = "C19"
 LEVEL = "fault_enumeration"
 HAS_CLOCK = False
-BUDGET = {"quick": (1500, 300), "thorough": (60000, 900)}
+BUDGET = {"quick": (1500, 300), "thorough": (60000, 1500)}
 RULE = (
     "A case is (scenario, failure point).  Scenario: a schema-load graph "
     "(top schema + extends / import src / import package units) or a "
